@@ -99,17 +99,18 @@ fn run_one(tx: &Transaction, p: &TxOut, i: usize, q: &Query, t: SchnorrSighashTy
 }
 
 macro_rules! one_harness {
-    ($name:ident, $nin:expr, $nout:expr, $b:expr) => {
+    ($name:ident, $nin:expr, $nout:expr, $b:expr, $annex:expr, $leaf:expr) => {
         #[kani::proof]
         #[kani::stub(<ShaEngine as HashEngineTrait>::input, hm::input_fold)]
         #[kani::stub(ShaHash::from_engine, hm::from_engine_fold)]
+        #[kani::stub(std::io::Write::write_all, hm::WriteAllOnce::write_all_once)]
         fn $name() {
             const NIN: usize = $nin;
             const NOUT: usize = $nout;
             assert!(hm::layout_ok());
             let tx = mk_tx(NIN, NOUT);
             let p = mk_prevout();
-            let q = Query { b: $b, idx: kani::any(), annex: kani::any(), leaf: kani::any() };
+            let q = Query { b: $b, idx: kani::any(), annex: $annex, leaf: $leaf };
             let i: usize = kani::any();
             let t = match SchnorrSighashType::from_u8(q.b) { Some(t) => t, None => { kani::assume(false); return; } };
             let acp = q.b & 0x80 != 0;
@@ -141,27 +142,27 @@ macro_rules! one_harness {
     };
 }
 
-//@ harness: taproot_one_none_acp class=B tier=quick bound="2 inputs, 1 output, no issuance; prevout explicit asset/value, 2-byte script; hash type 0x82; all usize input indices and One-indices; annex / script path present or absent" props=C13,C10 timeout=900
+//@ harness: taproot_one_none_acp class=B tier=quick bound="2 inputs, 1 output, no issuance; prevout explicit asset/value, 2-byte script; hash type 0x82; all usize input indices and One-indices; key path without annex" props=C13,C10 timeout=900
 //@ clause: NONE|ANYONECANPAY with Prevouts::One(i, p) succeeds iff input_index is a real input and i == input_index, writing a message of the BIP-341/Elements length; otherwise Err(IndexOutOfInputsBounds / PrevoutIndex), never a panic; the other input's prevout is never needed
-one_harness!(taproot_one_none_acp, 2, 1, 0x82);
-//@ harness: taproot_one_single_acp class=B tier=quick bound="as taproot_one_none_acp, hash type 0x83 (index 1 has no output)" props=C13,C10 timeout=900
+one_harness!(taproot_one_none_acp, 2, 1, 0x82, false, false);
+//@ harness: taproot_one_single_acp class=B tier=quick bound="as taproot_one_none_acp, hash type 0x83 (index 1 has no output), script path with 2-byte annex" props=C13,C10 timeout=900
 //@ clause: SINGLE|ANYONECANPAY with Prevouts::One: as above, and an input without a corresponding output is Err(SingleWithoutCorrespondingOutput)
-one_harness!(taproot_one_single_acp, 2, 1, 0x83);
+one_harness!(taproot_one_single_acp, 2, 1, 0x83, true, true);
 //@ harness: taproot_one_all_acp class=B tier=quick bound="as taproot_one_none_acp, hash type 0x81" props=C13 timeout=900
 //@ clause: ALL|ANYONECANPAY with Prevouts::One for the signed input succeeds (no other spent output is needed). EXPECTED TO FAIL on the pinned tree: DESIGN section 6, D8
-one_harness!(taproot_one_all_acp, 2, 1, 0x81);
+one_harness!(taproot_one_all_acp, 2, 1, 0x81, false, false);
 //@ harness: taproot_one_default_needs_all class=B tier=quick bound="2 inputs, 1 output, hash type 0x00" props=C13,C10 timeout=900
 //@ clause: a hash type without ANYONECANPAY needs all spent outputs: Prevouts::One is Err(PrevoutKind) for every index
-one_harness!(taproot_one_default_needs_all, 2, 1, 0x00);
+one_harness!(taproot_one_default_needs_all, 2, 1, 0x00, false, false);
 //@ harness: taproot_one_all_needs_all class=B tier=thorough bound="2 inputs, 1 output, hash type 0x01" props=C13,C10 timeout=900
 //@ clause: same for ALL
-one_harness!(taproot_one_all_needs_all, 2, 1, 0x01);
+one_harness!(taproot_one_all_needs_all, 2, 1, 0x01, false, false);
 //@ harness: taproot_one_none_needs_all class=B tier=thorough bound="2 inputs, 1 output, hash type 0x02" props=C13,C10 timeout=900
 //@ clause: same for NONE
-one_harness!(taproot_one_none_needs_all, 2, 1, 0x02);
+one_harness!(taproot_one_none_needs_all, 2, 1, 0x02, false, false);
 //@ harness: taproot_one_single_needs_all class=B tier=thorough bound="2 inputs, 1 output, hash type 0x03" props=C13,C10 timeout=900
 //@ clause: same for SINGLE
-one_harness!(taproot_one_single_needs_all, 2, 1, 0x03);
+one_harness!(taproot_one_single_needs_all, 2, 1, 0x03, false, false);
 
 //@ harness: hash_model_layout class=F tier=quick props=C13,C03
 //@ clause: (checked assumption) the engine mirror used by the hash model has the layout of bitcoin_hashes' sha256::HashEngine
